@@ -38,6 +38,7 @@ prop("C03", "Conditionals execute exactly the branch the comparison selects", [
     ("node_literal_left_str", "node_literal_left_str", "a JSON string against a literal on the left"),
     ("six_operators_mean_what_they_say", "cmp_by_spec", "==, !=, >, >=, <, <= on integers"),
     ("helper_decides", "cond_helper_decides", "a condition helper's verdict selects the branch"),
+    ("verdict_depends_on_operands_only", "node_cmp_core", "the verdict of a comparison (literal on either side or none) is a function of the variables, objects and counters: stale scratch values from earlier rules cannot flip it"),
     ("condok_binds_and_branches", "condok_binds_and_branches", "cond-OK: x and ok bound as returned, branch by the flag"),
     ("verdict_ignores_stale_scratch", "cmp_verdict_ignores_bufBl", "the verdict does not depend on what an earlier comparison left in the verdict cell"),
     ("comparison_ignores_scratch", "ctx_cmp_core", "nor on any scratch cell"),
@@ -89,6 +90,8 @@ prop("C07", "switch executes the first matching case, else default, never more",
 prop("C14", "A reset or pooled context behaves like a new one", [
     ("reset_is_new_but_verdict_cell", "reset_is_new_but_bufBl", "Reset leaves exactly a new context (same objects), except the verdict cell bufBl"),
     ("reset_core_equals_new", "reset_core_eq_new", "i.e. it agrees with a new context on everything but the scratch cells"),
+    ("reused_context_decodes_like_new", "reused_context_decodes_like_new", "FULL STATEMENT: a context with any past, once Reset and given the job's bindings, decodes any program to the same error, objects, variables and call sequence as a new context given the same bindings (any fuel, any user functions)"),
+    ("every_rule_ignores_scratch", "follow_respects", "the induction behind it: followRule, at every fuel, maps contexts that differ only in scratch cells to contexts that differ only in scratch cells, with the same error"),
     ("comparison_ignores_scratch", "ctx_cmp_core", "comparisons do not read the incoming scratch cells"),
     ("lookup_ignores_scratch", "ctx_get_core", "nor do lookups"),
     ("arguments_ignore_scratch", "collect_args_core", "nor argument vectors"),
